@@ -79,7 +79,7 @@ def apply_script(base, script, typool):
         elif k == "AddRequest":
             r = {"method": "verif/lookup", "messageDirection": "clientToServer"}
             if e["typed"] != "none":
-                r["typeName"] = "VerifNewRequest" if e["typed"] == "suffixed" else "VerifLookup"
+                r["typeName"] = {"suffixed": "VerifNewRequest", "plain": "VerifLookup", "infix": "VerifRequestReviewRequest"}[e["typed"]]
             if e["params"] == "ref":
                 r["params"] = {"kind": "reference", "name": "HoverParams"}
             r["result"] = {"ref": {"kind": "reference", "name": "Hover"},
@@ -92,7 +92,7 @@ def apply_script(base, script, typool):
         elif k == "AddNotification":
             r = {"method": "verif/didLookup", "messageDirection": "serverToClient"}
             if e["typed"] != "none":
-                r["typeName"] = "VerifNewNotification" if e["typed"] == "suffixed" else "VerifDidLookup"
+                r["typeName"] = {"suffixed": "VerifNewNotification", "plain": "VerifDidLookup", "infix": "VerifNotificationLogNotification"}[e["typed"]]
             if e["params"] == "ref":
                 r["params"] = {"kind": "reference", "name": "HoverParams"}
             d["notifications"].append(r)
@@ -100,21 +100,22 @@ def apply_script(base, script, typool):
             touched.add("verif/didLookup")
         elif k == "Mark":
             text = MARK_TEXTS[e.get("text", "plain")]
-            val = {"proposed": True, "deprecated": text, "since": text}[e["mark"]]
+            val = {"proposed": True, "notProposed": False, "deprecated": text, "since": text}[e["mark"]]
+            key = "proposed" if e["mark"] == "notProposed" else e["mark"]
             if e["on"] == "structure":
-                struct(d, "Color")[e["mark"]] = val
+                struct(d, "Color")[key] = val
                 a.update(touch="Color", list="structures")
                 touched.add("Color")
             elif e["on"] == "property":
-                struct(d, "Color")["properties"][0][e["mark"]] = val
+                struct(d, "Color")["properties"][0][key] = val
                 a.update(touch="Color", list="structures")
                 touched.add("Color")
             elif e["on"] == "enumValue":
                 en = next(x for x in d["enumerations"] if x["name"] == "MarkupKind")
-                en["values"][0][e["mark"]] = val
+                en["values"][0][key] = val
                 a.update(touch="MarkupKind", list="enumerations")
             else:
-                d["requests"][0][e["mark"]] = val
+                d["requests"][0][key] = val
                 a.update(list="requests", index=1)
         elif k == "RemoveOptionalProperty":
             s = struct(d, e["target"])
@@ -399,7 +400,7 @@ def check(tier):
         results = list(ex.map(one_model, [(i, s, typool, base, tier) for i, s in enumerate(uniq)]))
     for r in results:
         for f in r["fails"]:
-            kinds = "+".join(sorted({e["k"] + (":" + e["ty"] if "ty" in e else "") + ({"none": ":typeName-less", "plain": ":typeName-plain", "suffixed": ""}[e["typed"]] if e["k"] in ("AddRequest", "AddNotification") else "") for e in r["script"]})) or "identity"
+            kinds = "+".join(sorted({e["k"] + (":" + e["ty"] if "ty" in e else "") + ({"none": ":typeName-less", "plain": ":typeName-plain", "infix": ":typeName-infix", "suffixed": ""}[e["typed"]] if e["k"] in ("AddRequest", "AddNotification") else "") for e in r["script"]})) or "identity"
             rep.violation({"edit": kinds, "stage": f["stage"], "clause": f["clause"], "pos": f["pos"]}, {"script": r["script"], "failure": f})
     rep.coverage.update({"states": distinct, "transitions": gen, "traces_validated_against_impl": len(results),
                          "evolved_models": len(results), "edit_kinds": sorted({e["k"] for r in results for e in r["script"]}),
